@@ -935,6 +935,54 @@ def _limited(fn, seconds=20):
         signal.signal(signal.SIGALRM, old)
 
 
+def probe_view():
+    """view_mode: under the fork backend, does a worker forked after the in-memory results have been empty once still see the
+    results of its dependencies?  (One worker; an independent task finishes first and its result is released at once.)"""
+    import logging
+    from labtech.lab import Lab
+    from lv_probe_types import PLeaf, PSum
+    logging.getLogger('labtech').setLevel(logging.CRITICAL)
+    first, top = PLeaf(x=1), PSum(dep=PLeaf(x=2))
+    lab = Lab(storage=None, runner_backend='fork', max_workers=1, continue_on_failure=True, notebook=False)
+    res = lab.run_tasks([first, top], disable_progress=True, disable_top=True)
+    if res.get(first) != 1:
+        return None
+    if top in res:
+        return 'ViewInPlace' if res[top] == ('sum', 2) else None
+    return 'ViewRebinds'
+
+
+def probe_scope():
+    """exec_scope: two process runners built in one interpreter have executors of their own (distinct objects, no mutable
+    container shared through the class or between the instances) with the max_workers each was given."""
+    from labtech.runners import ForkRunnerBackend
+    from labtech.storage import NullStorage
+    runners = [ForkRunnerBackend().build_runner(context={}, storage=NullStorage(), max_workers=w) for w in (3, 1)]
+    try:
+        exs = []
+        for r in runners:
+            found = [v for v in vars(r).values() if hasattr(v, 'submit') and hasattr(v, 'wait') and hasattr(v, 'max_workers')]
+            if len(found) != 1:
+                return None
+            exs.append(found[0])
+        a, b = exs
+        if a is b or (a.max_workers, b.max_workers) != (3, 1):
+            return 'ExecShared'
+        for name, val in vars(type(b)).items():
+            if isinstance(val, (dict, list, set)) and name not in vars(b):
+                return 'ExecShared'
+        for name, val in vars(a).items():
+            if isinstance(val, (dict, list, set)) and vars(b).get(name) is val:
+                return 'ExecShared'
+        return 'ExecPerRunner'
+    finally:
+        for r in runners:
+            try:
+                r.close()
+            except Exception:   # noqa
+                pass
+
+
 def all_probes():
     out = {}
     r = _limited(probe_ready) or (None, None)
@@ -945,6 +993,8 @@ def all_probes():
     out['start'], out['ctor'], out['wait'] = r
     out['snap'] = _limited(probe_snapshot)
     out['launch'] = _limited(probe_launch)
+    out['view'] = _limited(probe_view)
+    out['scope'] = _limited(probe_scope)
     out.update(_limited(probe_storage) or {})
     r = _limited(probe_cache) or (None, None)
     out['order'], out['cleanup'] = r
